@@ -303,3 +303,77 @@ def _replay_render_func(model, ob):
                 return {"confirmed": True, "function": "render_func", "inputs": {"component layer present": with_component_layer, "extra_context": extra, "aliases": "data=d default=r"},
                         "expected": f"{want} and {depth} layers afterwards", "observed": f"{out} and {len(ctx.dicts)} layers"}
     return {"confirmed": False}
+
+
+# ================================================================================================ which Context a fill runs in
+# SlotNode._resolve_slot_context(context, slot_fill, component_ctx) - from the property: in isolated mode fill content is
+# LEXICALLY scoped (it runs in the Context captured at the {% component %} tag), in django mode it runs in the current
+# Context, and a slot's own default content always runs in the current Context.
+SFILL, CCTX, RSET = Obj("SlotFill"), Obj("ComponentContext"), Obj("RegistrySettingsObj")
+
+
+def _is_filled(f):
+    return ops.uf("slot_fill_is_filled", SFILL.sort(), z3.BoolSort())(f)
+
+
+def _behavior(cc):
+    return ops.uf("component_ctx_context_behavior", CCTX.sort(), S)(cc)
+
+
+def _outer(cc):
+    """component_ctx.outer_context as a reference (0 = None)"""
+    return ops.uf("component_ctx_outer_context", CCTX.sort(), I)(cc)
+
+
+REG.stub(("getattr", "SlotFill", "is_filled"), lambda run, obj, node: Val(TBool, _is_filled(obj.t)))
+REG.stub(("getattr", "ComponentContext", "registry"), lambda run, obj, node: Conc(("obj_kind", "registry_of", obj)))
+REG.stub(("getattr", "conc:obj_kind:registry_of", "settings"), lambda run, obj, node: Conc(("obj_kind", "settings_of", obj.obj[2])))
+REG.stub(("getattr", "conc:obj_kind:settings_of", "context_behavior"), lambda run, obj, node: Val(TStr, _behavior(obj.obj[2].t)))
+
+
+def _outer_getattr(run, obj, node):
+    r = _outer(obj.t)
+    run.assume(z3.And(r >= 0, r < run.next_ref))
+    from pyvc.types import TRef
+    return Val(TRef(CTX), r)
+
+
+REG.stub(("getattr", "ComponentContext", "outer_context"), _outer_getattr)
+
+
+def _new_context(run, args, kwargs, node):
+    """django.template.Context(): a fresh Context with only the built-ins layer (A-DJ)"""
+    if args or kwargs:
+        raise EngineError("Context(...) with arguments")
+    ref = run.alloc(CTX)
+    run.store_field(ref.t, CTX, "dicts", Val(LAYERS, z3.Unit(BUILTINS)))
+    return ref
+
+
+from pyvc.interp import EngineError  # noqa: E402
+
+REG.stub("django.template.Context", _new_context)
+REG.stub("django.template.context.Context", _new_context)
+
+
+def _rsc_post(c):
+    ctx, f, cc, res = c.old("context").t, c.old("slot_fill").t, c.old("component_ctx").t, c["result"].t
+    dj, iso = _behavior(cc) == z3.StringVal("django"), _behavior(cc) == z3.StringVal("isolated")
+    return z3.And(
+        z3.Implies(z3.Not(_is_filled(f)), res == ctx),                              # default content: as if the slot tag were not there
+        z3.Implies(z3.And(_is_filled(f), dj), res == ctx),
+        z3.Implies(z3.And(_is_filled(f), iso, _outer(cc) != 0), res == _outer(cc)),    # lexical scoping of the fill
+        z3.Implies(z3.And(_is_filled(f), iso, _outer(cc) == 0),
+                   z3.And(res >= z3.Int("next_ref0"), z3.Select(c.field(CTX, "dicts"), res) == z3.Unit(BUILTINS))))
+
+
+REG.contract(
+    f"{SLOTS}:SlotNode._resolve_slot_context", prop="C03", types={"context": Ref(CTX), "slot_fill": SFILL, "component_ctx": CCTX}, result=Ref(CTX),
+    self_type=Obj("SlotNode"),
+    requires=[lambda c: c["context"].t > 0],
+    modifies=[f"{CTX}.dicts"],
+    raises={"ValueError": lambda c: z3.And(_is_filled(c.old("slot_fill").t), _behavior(c.old("component_ctx").t) != z3.StringVal("django"),
+                                            _behavior(c.old("component_ctx").t) != z3.StringVal("isolated"))},
+    ensures={"fill_runs_in_the_context_the_mode_prescribes": _rsc_post,
+             "existing_contexts_untouched": lambda c: _others_unchanged(c, z3.IntVal(-1))},
+)
